@@ -34,7 +34,10 @@ def _observe_inner(req):
             return obs
         return pipefam.observe_impl(req)
     except Exception as e:  # noqa  harness failure, reported as such
-        return {'harness_error': repr(e)}
+        import traceback
+        repo = os.path.realpath(common.REPO) + os.sep
+        lib = [f for f in traceback.extract_tb(e.__traceback__) if os.path.realpath(f.filename).startswith(repo)]
+        return {'harness_error': repr(e), 'from_library': bool(lib), 'traceback': traceback.format_exc()[-2500:]}
 
 
 def observe_many(reqs, procs):
@@ -237,6 +240,7 @@ def run(pp, rep):
     disagreements = []
     oracle_fails = []
     harness_errors = 0
+    lib_errors = []
     mode_of = {}
     samples = []
     CHUNK = 20000                      # bounds the memory of a depth-3 enumeration (~200 000 cases)
@@ -255,6 +259,8 @@ def run(pp, rep):
             p = req['p']
             if 'harness_error' in a:
                 harness_errors += 1
+                if a.get('from_library') and not lib_errors:
+                    lib_errors.append((p, a))
                 continue
             if a.get('hang'):
                 mode_of[id(p)] = req.get('source_mode', 'pickle') + '|' + req.get('view', 'direct')
@@ -284,6 +290,15 @@ def run(pp, rep):
                     mode_of[id(p)] = req.get('source_mode', 'pickle') + '|' + req.get('view', 'direct')
                     oracle_fails.append((p, clause, detail, a))
         del impl_obs, model_obs, reqs
+    if lib_errors:
+        # the observation itself was aborted by an exception raised inside the library (outside every place where
+        # the harness expects one): the unchanged code raises none there
+        p, a = lib_errors[0]
+        rep.violation({'property': pp.prop, 'kind': 'library-raised-in-harness', 'pipeline': p,
+                       'what_no_longer_checks': f'the observation of {harness_errors} pipelines was aborted by an exception raised inside the library: '
+                                                + a['harness_error'][:300],
+                       'traceback': a.get('traceback')}, no_input=True)
+        return rep
     if harness_errors:
         raise common.Infra(f'{harness_errors} harness errors while observing the implementation')
 
